@@ -27,6 +27,21 @@ def run(ctx):
         blobs.append((f, 'xz'))
         for _k in range(3):
             m, how = xzgen.mutate(rng, f); blobs.append((m, 'xz'))
+    # files whose dictionary wraps around several times (small dictionaries, data several times their size, matches at
+    # every distance incl. the ones that reach across the wrap point and exactly to its edges), plus mutants of them
+    import lzma as _lzw
+    for _ in range(10 if ctx.quick() else 200):
+        f, e, d = xzgen.gen_wrap_reset_xz(rng); blobs.append((f, 'xz')); blobs.append((xzgen.mutate(rng, f)[0], 'xz'))
+    for dsz in (4096, 8192):
+        for _k in range(3 if ctx.quick() else 40):
+            per = rng.choice([1, 2, 7, 255, 256, 289, 1000, dsz - 300, dsz - 1, dsz])
+            base_ = bytes(rng.getrandbits(8) for _ in range(per))
+            dd_ = bytearray()
+            while len(dd_) < 3 * dsz + 500:
+                dd_ += base_ if rng.random() < 0.8 else bytes(rng.getrandbits(8) for _ in range(rng.randrange(1, 40)))
+            dd_ = bytes(dd_)
+            blobs.append((_lzw.compress(dd_, format=_lzw.FORMAT_XZ, filters=[{'id': _lzw.FILTER_LZMA2, 'dict_size': dsz, 'mf': rng.choice([_lzw.MF_HC4, _lzw.MF_BT4]), 'nice_len': rng.choice([8, 64, 273])}]), 'xz'))
+            blobs.append((_lzw.compress(dd_, format=_lzw.FORMAT_ALONE, filters=[{'id': _lzw.FILTER_LZMA1, 'dict_size': dsz}]), 'lzma'))
     for _ in range(N // 3):
         data = xzgen.gen_data(rng, rng.randrange(0, 500))
         raw = lzma.compress(data, format=lzma.FORMAT_ALONE, filters=[{'id': lzma.FILTER_LZMA1, 'dict_size': 4096, 'lc': rng.randrange(4), 'lp': 0, 'pb': rng.randrange(5)}])
